@@ -21,6 +21,7 @@ FUNC = (ast.FunctionDef, ast.AsyncFunctionDef)
 MAX_INLINES_PER_FUNCTION = 60
 MAX_HELPER_NODES = 1500
 JUMP = '__inline_return__'
+AMBIGUOUS: Set[int] = set()
 
 
 def load_inventory() -> Set[str]:
@@ -41,6 +42,8 @@ def function_defs(tree: ast.Module) -> Dict[str, ast.AST]:
                 q = prefix + st.name
                 if q in out and any(isinstance(d, ast.Attribute) and d.attr == 'setter' for d in st.decorator_list):
                     q += '.setter'
+                if q in out:
+                    AMBIGUOUS.add(id(out[q])); AMBIGUOUS.add(id(st))     # two definitions of one name (chosen by a condition)
                 out[q] = st
                 scope(st.body, q + '.')
             elif isinstance(st, ast.ClassDef):
@@ -149,6 +152,10 @@ class ModuleInliner:
         if q not in self.new:
             return False
         g = self.defs[q]
+        if g.name.startswith('__') and g.name.endswith('__'):
+            return False            # special methods are API, not cut-out code
+        if id(g) in AMBIGUOUS:
+            return False            # which definition is meant depends on the path
         if g.decorator_list or g.args.vararg or g.args.kwarg or isinstance(g, ast.AsyncFunctionDef):
             return False
         if sum(1 for _ in ast.walk(g)) > MAX_HELPER_NODES:
@@ -837,7 +844,10 @@ def expand_constant_kwargs(tree: ast.Module) -> int:
                 d = None
                 if k.arg is None:
                     v = k.value
-                    if isinstance(v, ast.Name):
+                    d = as_dict(v)           # f(**{'a': x}) / f(**dict(a=x))
+                    if d is not None:
+                        pass
+                    elif isinstance(v, ast.Name):
                         d = consts.get(v.id)
                     elif isinstance(v, ast.Attribute) and isinstance(v.value, ast.Name):
                         d = consts.get(f"{v.value.id}.{v.attr}")
